@@ -4,6 +4,7 @@ import (
 	"golang.org/x/sys/unix"
 
 	"github.com/mutagen-io/mutagen/pkg/state"
+	"github.com/mutagen-io/mutagen/pkg/verifhook"
 )
 
 // renameat2FailedWithENOSYS tracks if renameat2 previously failed with ENOSYS.
@@ -16,6 +17,9 @@ var renameat2FailedWithENOSYS state.Marker
 // not supported on the platform as a whole. It retries on EINTR errors and
 // returns on the first successful call or non-EINTR error.
 func renameatNoReplaceRetryingOnEINTR(oldDirectory int, oldPath string, newDirectory int, newPath string) error {
+	if err := verifhook.Point("renameat2", newDirectory, newPath); err != nil {
+		return err
+	}
 	// If renameat2 is known to be unavailable, then return immediately.
 	if renameat2FailedWithENOSYS.Marked() {
 		return unix.ENOSYS
